@@ -257,6 +257,22 @@ def run(ctx):
         if b not in ("OK", "PsecError"):
             viol.append({"what": "wrap escaped with a foreign exception", "input": {"kbpk": kb.hex(), "header": hs, "key_len": len(key), "mask": mask},
                          "expected": "Ok or HeaderError/KeyBlockError", "observed": b})
+    # one KeyBlock object after a rejected call (header stage / MAC stage / wrap with a bad header): the next call must
+    # again end with a result or the module's error - never hang (a lock or busy flag left behind), never another exception
+    for v in "ABCD":
+        c = t.gen_case(rng, version=v, profile="few", keylen=16, mask=None)
+        g = tr31.wrap(c["kbpk"], t.impl_header(c), c["key"])
+        for bad in (g[:12] + "0X" + g[14:], g[:-1] + ("0" if g[-1] != "0" else "1"), "E" + g[1:], g[:20], g[:16] + "**" + g[18:]):
+            kbo = tr31.KeyBlock(c["kbpk"])
+            first = guarded(kbo.unwrap, bad)
+            again = guarded(kbo.unwrap, g)
+            third = guarded(kbo.wrap, c["key"])
+            evals += 3
+            for what, b, want in (("rejected unwrap", first, ("PsecError",)), ("unwrap of a genuine block after a rejected one", again, ("OK",)),
+                                  ("wrap after a rejected unwrap", third, ("OK", "PsecError"))):
+                if b not in want:
+                    viol.append({"what": "one KeyBlock, " + what + ": foreign exception / hang", "input": {"kbpk": c["kbpk"].hex(), "string": bad, "then": g},
+                                 "expected": " or ".join(want), "observed": b})
     if TIMEOUTS[0]:
         # the implementation hangs on some inputs (reported above): do not re-execute it for the correspondence
         return {"evaluations": evals, "distinct_nontrivial": len(seen), "samples": [{"note": "stopped after %d calls ran into the 5 s limit" % TIMEOUTS[0]}],
